@@ -14,6 +14,7 @@
   All statements are re-exports of `PomerolModel/Spec/Rotation.lean` (fully proved).
 -/
 import PomerolModel.Spec.Rotation
+import PomerolModel.Spec.FieldPartSpec
 import Mathlib.LinearAlgebra.Matrix.Notation
 
 namespace Pomerol.Properties.C10
@@ -68,5 +69,199 @@ example :
   refine rotation_preserves_car V c cd (by simp [V]) 1 ?_ (by simp [V])
   ext i j
   fin_cases i <;> fin_cases j <;> simp [c, cd]
+
+/-! ### The loops of the library compute these rotated matrices
+
+`Model/FieldPart.lean` is an executable model that follows `FieldOperatorPart::compute` statement by
+statement (the loop over the Fock states of the right block, `actRight`, the first returned state and
+its amplitude converted to `int`, `getInnerState`, the two dense factors `LeftMat`/`RightMat`, their
+product, `sparseView`/`prune`, the row-major and column-major copies) with explicit errors where the
+source would throw (`wrongState`) or read outside a matrix (`outOfRange`), and of the adjoint copy
+made by `FieldOperatorContainer::computeAll`.  `Spec/FieldPartSpec.lean` proves what it computes.
+
+Setting: `blocks` = the lists of Fock states (bit masks) of all blocks, `blkOf` = the table "block of
+a state", `hpart b` = the eigenvector matrix of block `b` (`U fockIndex eigenstate`, `dim` rows);
+`FieldPartSpec.Idx blocks` = all (block, inner index) pairs = the full Fock space, `Vfull` = the
+block-diagonal matrix of all eigenvectors, `jwFull blocks op` = the Jordan-Wigner matrix of the symbolic
+operator `op` on the full Fock space (entries `Operator::getMatrixElement`, proved to be the
+Jordan-Wigner representation in `Spec/JW.lean`, `matrixElement_sem`). -/
+
+section Loops
+open Pomerol.Model Pomerol.Model.FieldPart Pomerol.Spec.FieldPartSpec
+open scoped Pomerol.Spec.Exact
+
+/-- **The loops compute the rotated Jordan-Wigner operator.**  For the part `<l| op |r>`:
+`FieldOperatorPart::compute` finishes without an error, the stored matrix has one row per state of the
+left block and one column per state of the right block, and BOTH stored copies (row-major and
+column-major) hold, entry by entry, the `(l,r)` block of `Uᴴ · JW(op) · U`.
+
+Hypotheses: the two blocks list no state twice and the table `blkOf` agrees with the lists (C07); the
+eigenvector matrices have not been truncated; `op` sends every state of the right block into the left
+block or annihilates it (`hinto`, the single-target property of C07).  Because the source only looks
+at the FIRST state returned by `actRight` and converts its amplitude to `int`, the operator must
+return at most one state (`hsingle`) with an integer amplitude (`hint`); for `c_i`, `c†_i`,
+`c†_i c_j` this always holds, see `loops_compute_rotated_operator_presets`. -/
+theorem loops_compute_rotated_operator (realBuild : Bool) (blkOf : List ℕ) (blocks : List (List ℕ))
+    (hpart : ℕ → HPart ℂ) (op : Poly ℂ) (l r : Fin blocks.length)
+    (hcls : ∀ b s, s ∈ blocks.getD b [] → blkOf[s]? = some b)
+    (hndl : (blocks.get l).Nodup) (hndr : (blocks.get r).Nodup)
+    (hdiml : (blocks.get l).length ≤ (hpart l).dim) (hdimr : (blocks.get r).length ≤ (hpart r).dim)
+    (hsingle : ∀ f ∈ blocks.get r, (actPoly op f).length ≤ 1)
+    (hinto : ∀ f ∈ blocks.get r, ∀ x ∈ actPoly op f, x.1 ∈ blocks.get l)
+    (hint : ∀ f ∈ blocks.get r, ∀ x ∈ actPoly op f, ((truncZ x.2.re : ℤ) : ℂ) = x.2) :
+    ∃ S, computeBlocks realBuild blkOf blocks hpart l r op = .ok S ∧
+      S.rows = (blocks.get l).length ∧ S.cols = (blocks.get r).length ∧
+      ∀ (n : Fin (blocks.get l).length) (m : Fin (blocks.get r).length),
+        S.coeffRow n m
+          = ((Vfull blocks hpart)ᴴ * jwFull blocks op * Vfull blocks hpart) ⟨l, n⟩ ⟨r, m⟩ ∧
+        S.coeffCol n m
+          = ((Vfull blocks hpart)ᴴ * jwFull blocks op * Vfull blocks hpart) ⟨l, n⟩ ⟨r, m⟩ :=
+  fieldpart_is_rotated_block realBuild blkOf blocks hpart op l r hcls hndl hndr hdiml hdimr
+    hsingle hinto hint
+
+/-- The same for the operators the library actually uses -- one monomial with coefficient 1
+(`opC i = [([c_i], 1)]`, `opCdag i`, `opNOffdiag i j`): the only hypothesis on the operator is the
+single-target property, stated on the bit-mask action `actMono` (so it can be checked by evaluation
+for concrete blocks). -/
+theorem loops_compute_rotated_operator_presets (realBuild : Bool) (blkOf : List ℕ)
+    (blocks : List (List ℕ)) (hpart : ℕ → HPart ℂ) (mono : Mono) (l r : Fin blocks.length)
+    (hcls : ∀ b s, s ∈ blocks.getD b [] → blkOf[s]? = some b)
+    (hndl : (blocks.get l).Nodup) (hndr : (blocks.get r).Nodup)
+    (hdiml : (blocks.get l).length ≤ (hpart l).dim) (hdimr : (blocks.get r).length ≤ (hpart r).dim)
+    (hinto : ∀ f ∈ blocks.get r, ∀ q ∈ actMono mono f, q.1 ∈ blocks.get l) :
+    ∃ S, computeBlocks realBuild blkOf blocks hpart l r [(mono, (1 : ℂ))] = .ok S ∧
+      S.rows = (blocks.get l).length ∧ S.cols = (blocks.get r).length ∧
+      ∀ (n : Fin (blocks.get l).length) (m : Fin (blocks.get r).length),
+        S.coeffRow n m
+          = ((Vfull blocks hpart)ᴴ * jwFull blocks [(mono, (1 : ℂ))] * Vfull blocks hpart)
+              ⟨l, n⟩ ⟨r, m⟩ ∧
+        S.coeffCol n m
+          = ((Vfull blocks hpart)ᴴ * jwFull blocks [(mono, (1 : ℂ))] * Vfull blocks hpart)
+              ⟨l, n⟩ ⟨r, m⟩ :=
+  fieldpart_is_rotated_block_mono realBuild blkOf blocks hpart mono l r hcls hndl hndr hdiml hdimr
+    hinto
+
+/-- `FieldOperator::prepare` pairs the right block `r` with the block `l = mapsTo(r)` of the first
+state reached from `r`.  When all states reached from block `r` lie in one block (single-target
+property, C07) and the table `blkOf` agrees with the lists of states, this `l` satisfies the
+hypothesis `hinto` above: `prepare` creates exactly the parts for which the loops are correct. -/
+theorem prepare_pairs_the_right_blocks (op : Poly ℂ) (blkOf : List ℕ) (blocks : List (List ℕ))
+    (r : Fin blocks.length) (l : ℕ)
+    (hmap : Symm.mapsTo op blkOf (blocks.get r) = some l)
+    (hcls' : ∀ s b, blkOf[s]? = some b → s ∈ blocks.getD b [])
+    (hsame : ∀ f ∈ blocks.get r, ∀ f' ∈ blocks.get r, ∀ x ∈ actPoly op f, ∀ x' ∈ actPoly op f',
+      blkOf[x.1]? = blkOf[x'.1]?) :
+    ∀ f ∈ blocks.get r, ∀ x ∈ actPoly op f, x.1 ∈ blocks.getD l [] :=
+  into_of_mapsTo op blkOf blocks r l hmap hcls' hsame
+
+/-- The Jordan-Wigner matrix of the adjoint symbolic operator (reversed monomials with creation and
+annihilation exchanged, conjugated coefficients) is the conjugate transpose of the Jordan-Wigner
+matrix of the operator; so `stored_annihilator_is_adjoint` applies with `A = JW(c†_i)`,
+`Aᴴ = JW(c_i)`. -/
+theorem jw_of_adjoint_operator (blocks : List (List ℕ)) (op : Poly ℂ) :
+    jwFull blocks (adjPoly op) = (jwFull blocks op)ᴴ := by
+  ext k l
+  rw [conjTranspose_apply]
+  exact matrixElement_adjPoly op _ _
+
+/-- **The copy made by the container is the annihilation operator.**
+`FieldOperatorContainer::computeAll` does not run `compute` for the annihilation operator: the part of
+`c` whose right block is `l` receives the adjoint (stored copies exchanged, values conjugated) of the
+part `<l| c† |r>` of the creation operator.  That copy is EXACTLY the object `compute` would have
+produced for the part `<r| c |l>` -- same entries, same storage order, both copies.  Stated for every
+operator `op` and its adjoint `adjPoly op` (`adjPoly (opCdag i) = opC i`), under the hypotheses of
+`loops_compute_rotated_operator` for both operators. -/
+theorem container_copy_is_annihilator (realBuild : Bool) (blkOf : List ℕ)
+    (blocks : List (List ℕ)) (hpart : ℕ → HPart ℂ) (op : Poly ℂ) (l r : Fin blocks.length)
+    (hcls : ∀ b s, s ∈ blocks.getD b [] → blkOf[s]? = some b)
+    (hndl : (blocks.get l).Nodup) (hndr : (blocks.get r).Nodup)
+    (hdiml : (blocks.get l).length ≤ (hpart l).dim) (hdimr : (blocks.get r).length ≤ (hpart r).dim)
+    (hsingle : ∀ f ∈ blocks.get r, (actPoly op f).length ≤ 1)
+    (hinto : ∀ f ∈ blocks.get r, ∀ x ∈ actPoly op f, x.1 ∈ blocks.get l)
+    (hint : ∀ f ∈ blocks.get r, ∀ x ∈ actPoly op f, ((truncZ x.2.re : ℤ) : ℂ) = x.2)
+    (hsingle' : ∀ f ∈ blocks.get l, (actPoly (adjPoly op) f).length ≤ 1)
+    (hinto' : ∀ f ∈ blocks.get l, ∀ x ∈ actPoly (adjPoly op) f, x.1 ∈ blocks.get r)
+    (hint' : ∀ f ∈ blocks.get l, ∀ x ∈ actPoly (adjPoly op) f, ((truncZ x.2.re : ℤ) : ℂ) = x.2) :
+    ∃ S, computeBlocks realBuild blkOf blocks hpart l r op = .ok S ∧
+      computeBlocks realBuild blkOf blocks hpart r l (adjPoly op) = .ok (adjointCopy S) :=
+  container_annihilator_is_adjoint realBuild blkOf blocks hpart op l r hcls hndl hndr hdiml hdimr
+    hsingle hinto hint hsingle' hinto' hint'
+
+/-- The same for `c†_i` / `c_i` (`mono = [c†_i]`, `adjMono mono = [c_i]`) and every other single
+monomial: only the single-target properties of the monomial and of its adjoint are needed. -/
+theorem container_copy_is_annihilator_presets (realBuild : Bool) (blkOf : List ℕ)
+    (blocks : List (List ℕ)) (hpart : ℕ → HPart ℂ) (mono : Mono) (l r : Fin blocks.length)
+    (hcls : ∀ b s, s ∈ blocks.getD b [] → blkOf[s]? = some b)
+    (hndl : (blocks.get l).Nodup) (hndr : (blocks.get r).Nodup)
+    (hdiml : (blocks.get l).length ≤ (hpart l).dim) (hdimr : (blocks.get r).length ≤ (hpart r).dim)
+    (hinto : ∀ f ∈ blocks.get r, ∀ q ∈ actMono mono f, q.1 ∈ blocks.get l)
+    (hinto' : ∀ f ∈ blocks.get l, ∀ q ∈ actMono (adjMono mono) f, q.1 ∈ blocks.get r) :
+    ∃ S, computeBlocks realBuild blkOf blocks hpart l r [(mono, (1 : ℂ))] = .ok S ∧
+      computeBlocks realBuild blkOf blocks hpart r l [(adjMono mono, (1 : ℂ))]
+        = .ok (adjointCopy S) :=
+  container_annihilator_is_adjoint_mono realBuild blkOf blocks hpart mono l r hcls hndl hndr hdiml
+    hdimr hinto hinto'
+
+/-- Concrete instance (2 modes, blocks `{00}`, `{01,10}`, `{11}`, complex eigenvector matrix
+`[[1,i],[i,1]]` of the middle block): all hypotheses hold for `c†_0` from the one-particle block
+into the two-particle block and for `c_0` back, hence the part of `c_0` the container stores is the
+one `compute` would produce. -/
+example : ∃ S, computeBlocks false exBlkOf exBlocks exHPart 2 1 [([⟨false, 0⟩], (1 : ℂ))] = .ok S ∧
+    computeBlocks false exBlkOf exBlocks exHPart 1 2 [([⟨true, 0⟩], (1 : ℂ))]
+      = .ok (adjointCopy S) :=
+  container_copy_is_annihilator_presets false exBlkOf exBlocks exHPart [⟨false, 0⟩]
+    (⟨2, by decide⟩ : Fin exBlocks.length) (⟨1, by decide⟩ : Fin exBlocks.length) ex_cls
+    (by decide) (by decide) (by simp [exHPart, exBlocks]) (by simp [exHPart, exBlocks])
+    (by decide) (by decide)
+
+end Loops
+
+/-! ### Runs of the executable model on 2 modes (exact integer matrix elements)
+
+Blocks `{00}`, `{01,10}`, `{11}` = bit masks `[[0],[1,2],[3]]`; eigenvector matrix of the middle
+block `[[1,1],[1,-1]]` (columns = eigenvectors), `(1)` for the other two. -/
+
+section Runs
+open Pomerol.Model Pomerol.Model.FieldPart
+open scoped Pomerol.Model.FieldPart.IntScalars
+
+/-- the three `HamiltonianPart`s -/
+def runHPart : ℕ → HPart Int
+  | 1 => ⟨2, fun i j => if i = 1 ∧ j = 1 then -1 else 1⟩
+  | _ => ⟨1, fun _ _ => 1⟩
+
+/-- the same after `Hamiltonian::reduce` kept ONE eigenstate of the middle block -/
+def runHPartReduced : ℕ → HPart Int
+  | 1 => ⟨1, fun _ _ => 1⟩
+  | _ => ⟨1, fun _ _ => 1⟩
+
+/-- `<{11}| c†_1 |{01,10}>`: `c†_1|01⟩ = −|11⟩` (one occupied mode below), `c†_1|10⟩ = 0`; rotated with
+the eigenvectors: the row `(−1, −1)`.  Stored row-major as one row, column-major as two columns. -/
+example : computeBlocks false [0, 1, 1, 2] [[0], [1, 2], [3]] runHPart 2 1 (opCdag 1)
+    = .ok ⟨1, 2, [[(0, -1), (1, -1)]], [[(0, -1)], [(0, -1)]]⟩ := by decide
+
+/-- the container's copy of it is what `compute` gives for `<{01,10}| c_1 |{11}>` -/
+example : (computeBlocks false [0, 1, 1, 2] [[0], [1, 2], [3]] runHPart 2 1 (opCdag 1)).map
+      adjointCopy
+    = computeBlocks false [0, 1, 1, 2] [[0], [1, 2], [3]] runHPart 1 2 (opC 1) := by decide
+
+/-- entries that cancel are not stored: `<{11}| (c†_0 + c†_1) |{01,10}>` has the dense row `(0, −2)` -/
+example : computeBlocks true [0, 1, 1, 2] [[0], [1, 2], [3]] runHPart 2 1
+      [([⟨false, 0⟩], 1), ([⟨false, 1⟩], 1)]
+    = .ok ⟨1, 2, [[(1, -2)]], [[], [(0, -2)]]⟩ := by decide
+
+/-- WHY the single-target hypothesis is needed: asked for the part `<{00}| c†_0 |{01,10}>` (which is
+zero: `c†_0` maps the one-particle block into `{11}`), the source takes the inner index of `|11⟩` in
+ITS block and reads the eigenvector matrix of `{00}` with it -- no error, a non-zero result.  The
+library never asks for such a part because `FieldOperator::prepare` pairs the blocks via `mapsTo`. -/
+example : computeBlocks false [0, 1, 1, 2] [[0], [1, 2], [3]] runHPart 0 1 (opCdag 0)
+    = .ok ⟨1, 2, [[(0, 1), (1, -1)]], [[(0, 1)], [(0, -1)]]⟩ := by decide
+
+/-- WHY the eigenvector matrices must not be truncated: after `Hamiltonian::reduce` the loops over
+`n < toStates.size()` / `m < fromStates.size()` read outside the reduced matrix. -/
+example : computeBlocks false [0, 1, 1, 2] [[0], [1, 2], [3]] runHPartReduced 2 1 (opCdag 1)
+    = .error .outOfRange := by decide
+
+end Runs
 
 end Pomerol.Properties.C10
